@@ -80,12 +80,13 @@ func txnsFor(r *c.Rng, cf *Config, limit int) []Txn {
 // node) and nf Filters, every subset of the possible connections (Filters on
 // "hit", g on ""), every choice of entry point (none / one of the processors).
 // The request side sends x-s requests to g, which answers them.
-func responseShapes(nf int, sample func(i int) bool) []Config {
+type cand struct{ from, cond, to string }
+
+func responseCands(nf int) ([]string, []cand) {
 	procs := []string{"g"}
 	for i := 0; i < nf; i++ {
 		procs = append(procs, string(rune('a'+i)))
 	}
-	type cand struct{ from, cond, to string }
 	var cands []cand
 	for _, f := range procs {
 		cd := "hit"
@@ -97,34 +98,64 @@ func responseShapes(nf int, sample func(i int) bool) []Config {
 		}
 		cands = append(cands, cand{f, cd, ""})
 	}
+	return procs, cands
+}
+
+// one response shape: root = index into procs (-1 none), m = subset of cands
+func responseShape(nf int, root int, m uint64) Config {
+	procs, cands := responseCands(nf)
+	var res []Conn
+	if root >= 0 {
+		res = append(res, s2p(procs[root]))
+	}
+	for i, cd := range cands {
+		if m>>uint(i)&1 == 1 {
+			if cd.to == "" {
+				res = append(res, p2s(cd.from, cd.cond))
+			} else {
+				res = append(res, p2p(cd.from, cd.cond, cd.to))
+			}
+		}
+	}
+	f := FlowCfg{Name: "A", URL: mainURL, Procs: []Proc{filt("s"), gen1("g")},
+		Req: []Conn{s2p("s"), p2p("s", "hit", "g"), p2s("s", "miss")}, Res: res}
+	for i := 0; i < nf; i++ {
+		f.Procs = append(f.Procs, filt(string(rune('a'+i))))
+	}
+	return Config{Flows: []FlowCfg{f}}
+}
+
+func responseShapes(nf int, sample func(i int) bool) []Config {
+	procs, cands := responseCands(nf)
 	var out []Config
 	idx := 0
 	for root := -1; root < len(procs); root++ {
-		for m := 1; m < 1<<len(cands); m++ {
+		for m := uint64(1); m < 1<<uint(len(cands)); m++ {
 			idx++
 			if sample != nil && !sample(idx) {
 				continue
 			}
-			var res []Conn
-			if root >= 0 {
-				res = append(res, s2p(procs[root]))
-			}
-			for i, cd := range cands {
-				if m>>i&1 == 1 {
-					if cd.to == "" {
-						res = append(res, p2s(cd.from, cd.cond))
-					} else {
-						res = append(res, p2p(cd.from, cd.cond, cd.to))
-					}
-				}
-			}
-			f := FlowCfg{Name: "A", URL: mainURL, Procs: []Proc{filt("s"), gen1("g")},
-				Req: []Conn{s2p("s"), p2p("s", "hit", "g"), p2s("s", "miss")}, Res: res}
-			for i := 0; i < nf; i++ {
-				f.Procs = append(f.Procs, filt(string(rune('a'+i))))
-			}
-			out = append(out, Config{Flows: []FlowCfg{f}})
+			out = append(out, responseShape(nf, root, m))
 		}
+	}
+	return out
+}
+
+// n random response shapes (sparse subsets: each connection with probability ~ 1/4)
+func responseShapesRandom(r *c.Rng, nf, n int) []Config {
+	procs, cands := responseCands(nf)
+	var out []Config
+	for i := 0; i < n; i++ {
+		var m uint64
+		for b := range cands {
+			if r.Chance(1, 4) {
+				m |= 1 << uint(b)
+			}
+		}
+		if m == 0 {
+			m = 1
+		}
+		out = append(out, responseShape(nf, r.Range(-1, len(procs)-1), m))
 	}
 	return out
 }
@@ -147,6 +178,7 @@ func requestShapes(nf int, sample func(i int) bool) []Config {
 			cands = append(cands, cand{f, t})
 		}
 	}
+	_ = cands
 	var out []Config
 	idx := 0
 	roots := append([]string{""}, append(append([]string{}, fs...), "g")...)
